@@ -15,6 +15,7 @@ ROOT = os.path.dirname(os.path.dirname(os.path.abspath(__file__)))
 SEEDED = os.path.join(ROOT, "seeded")
 SRC = "/tmp/mut_out"
 WT = "/tmp/confirm_wt"
+REPO = os.environ.get("AVG_REPO", "/repo")
 ENV = dict(os.environ, CARGO_NET_OFFLINE="true")
 
 
@@ -111,9 +112,9 @@ def confirm(mid):
 def run(mid, all_checks=False, tier="quick"):
     d = os.path.join(SEEDED, mid)
     m = load_meta(mid)
-    rc, st = sh(["git", "-C", "/repo", "status", "--porcelain"])
-    assert st.strip() == "", "/repo is not clean: " + st
-    rc, out = sh(["git", "-C", "/repo", "apply", os.path.join(d, "patch.diff")])
+    rc, st = sh(["git", "-C", REPO, "status", "--porcelain"])
+    assert st.strip() == "", REPO + " is not clean: " + st
+    rc, out = sh(["git", "-C", REPO, "apply", os.path.join(d, "patch.diff")])
     assert rc == 0, out
     try:
         manifest = json.load(open(os.path.join(ROOT, "MANIFEST.json")))
@@ -137,7 +138,7 @@ def run(mid, all_checks=False, tier="quick"):
         m["caught_with_input"] = m["caught"] and any("no-failing-input-found" not in v for v in own.get("violation_lines", []))
         m["caught_by_other_checks"] = sorted(p for p, e in res.items() if e.get("exit") == 1 and p != m["property"])
     finally:
-        sh(["git", "-C", "/repo", "checkout", "--", "."])
+        sh(["git", "-C", REPO, "checkout", "--", "."])
         # the evidence files written while the patch was applied do not describe /repo: restore them
         sh(["git", "checkout", "--", "evidence"], cwd=ROOT)
     fresh = load_meta(mid)          # `confirm` may have written in the meantime
